@@ -1,6 +1,7 @@
 package rules
 
 import (
+	"go/types"
 	"strings"
 
 	"golang.org/x/tools/go/ssa"
@@ -15,6 +16,7 @@ type helperCase struct {
 	prmSent *eng.SentFact
 	trace   []ssa.Instruction
 	bools   map[int]bool   // constant boolean results by index
+	ints    map[int]int64  // constant integer results by index (a classification of the error)
 	nils    map[int]eng.NS // nil-state of nilable results by index
 }
 
@@ -46,7 +48,7 @@ func (c *Ctx) c14ForkHook(sm *storeModel) func(in ssa.Instruction, ps *eng.PathS
 			if !ok || eng.IsRecoverBlock(ret.Block()) && !eng.DefersMayRecover(g) {
 				return
 			}
-			hc := helperCase{prmNil: eng.NSMaybe, bools: map[int]bool{}, nils: map[int]eng.NS{}}
+			hc := helperCase{prmNil: eng.NSMaybe, bools: map[int]bool{}, ints: map[int]int64{}, nils: map[int]eng.NS{}}
 			if st, known := ps.Nil[prm]; known {
 				hc.prmNil = st
 			}
@@ -58,6 +60,12 @@ func (c *Ctx) c14ForkHook(sm *storeModel) func(in ssa.Instruction, ps *eng.PathS
 			for i, rv := range eng.ReturnResults(ret) {
 				if bv, isC := eng.ConstBool(rv); isC {
 					hc.bools[i] = bv
+					continue
+				}
+				if bt, isB := rv.Type().Underlying().(*types.Basic); isB && bt.Info()&types.IsInteger != 0 {
+					if kv, isC := eng.ConstInt(rv); isC {
+						hc.ints[i] = kv
+					}
 					continue
 				}
 				switch rv.Type().Underlying().(type) {
@@ -136,7 +144,10 @@ func (c *Ctx) c14ForkHook(sm *storeModel) func(in ssa.Instruction, ps *eng.PathS
 			if contra {
 				continue
 			}
-			alt := &eng.PathState{Nil: eng.Facts{}, Sent: map[ssa.Value]eng.SentFact{}, Bool: map[ssa.Value]bool{}}
+			alt := &eng.PathState{Nil: eng.Facts{}, Sent: map[ssa.Value]eng.SentFact{}, Bool: map[ssa.Value]bool{}, Int: map[ssa.Value]int64{}}
+			for k, v := range ps.Int {
+				alt.Int[k] = v
+			}
 			for k, v := range ps.Nil {
 				alt.Nil[k] = v
 			}
@@ -169,6 +180,9 @@ func (c *Ctx) c14ForkHook(sm *storeModel) func(in ssa.Instruction, ps *eng.PathS
 				}
 				if bv, has := hc.bools[i]; has {
 					alt.Bool[rv] = bv
+				}
+				if kv, has := hc.ints[i]; has {
+					alt.Int[rv] = kv
 				}
 				if ns, has := hc.nils[i]; has {
 					alt.Nil[rv] = ns
